@@ -440,6 +440,14 @@ package goldilocks
 //@ def qea_sub(a, b) = tuple(qe_sub(a[0], b[0]), qe_sub(a[1], b[1]))
 //@ def qea_smul(s, b) = tuple(qe_mul(s, b[0]), qe_mul(s, b[1]))
 //@ def qea_mul(a, b) = tuple(tuple((a[0][0]*b[0][0] + 7*a[0][1]*b[0][1] + 7*(a[1][0]*b[1][0] + 7*a[1][1]*b[1][1])) % P, (a[0][0]*b[0][1] + a[0][1]*b[0][0] + 7*(a[1][0]*b[1][1] + a[1][1]*b[1][0])) % P), tuple((a[0][0]*b[1][0] + 7*a[0][1]*b[1][1] + a[1][0]*b[0][0] + 7*a[1][1]*b[0][1]) % P, (a[0][0]*b[1][1] + a[0][1]*b[1][0] + a[1][0]*b[0][1] + a[1][1]*b[0][0]) % P))
+//@ opaque def qea_mulo00(a00, a01, a10, a11, b00, b01, b10, b11) = (a00*b00 + 7*a01*b01 + 7*(a10*b10 + 7*a11*b11)) % P
+//@ opaque def qea_mulo01(a00, a01, a10, a11, b00, b01, b10, b11) = (a00*b01 + a01*b00 + 7*(a10*b11 + a11*b10)) % P
+//@ opaque def qea_mulo10(a00, a01, a10, a11, b00, b01, b10, b11) = (a00*b10 + 7*a01*b11 + a10*b00 + 7*a11*b01) % P
+//@ opaque def qea_mulo11(a00, a01, a10, a11, b00, b01, b10, b11) = (a00*b11 + a01*b10 + a10*b01 + a11*b00) % P
+//@ def qea_mulo(a, b) = tuple(tuple(qea_mulo00(a[0][0], a[0][1], a[1][0], a[1][1], b[0][0], b[0][1], b[1][0], b[1][1]), qea_mulo01(a[0][0], a[0][1], a[1][0], a[1][1], b[0][0], b[0][1], b[1][0], b[1][1])), tuple(qea_mulo10(a[0][0], a[0][1], a[1][0], a[1][1], b[0][0], b[0][1], b[1][0], b[1][1]), qea_mulo11(a[0][0], a[0][1], a[1][0], a[1][1], b[0][0], b[0][1], b[1][0], b[1][1])))
+//@ def qea_addo(a, b) = tuple(qe_addo(a[0], b[0]), qe_addo(a[1], b[1]))
+//@ def qea_subo(a, b) = tuple(qe_subo(a[0], b[0]), qe_subo(a[1], b[1]))
+//@ def qea_smulo(s, b) = tuple(qe_mulo(s, b[0]), qe_mulo(s, b[1]))
 //@ def canonQEA(a) = canonQE(a[0]) && canonQE(a[1])
 //@ def u7(x) = (x*7) % P
 
@@ -447,22 +455,28 @@ package goldilocks
 //@   props C05 C08
 //@   circuit
 //@   requires chipok(p) && canonQEA(a) && canonQEA(b)
+//@   reveal qe_addo0 qe_addo1
 //@   ensures canonQEA(res)
 //@   ensures res == qea_add(a, b)
+//@   ensures res == qea_addo(a, b)
 
 //@ func (p *Chip) SubExtensionAlgebra(a QuadraticExtensionAlgebraVariable, b QuadraticExtensionAlgebraVariable) (res QuadraticExtensionAlgebraVariable)
 //@   props C05 C08
 //@   circuit
 //@   requires chipok(p) && canonQEA(a) && canonQEA(b)
+//@   reveal qe_subo0 qe_subo1
 //@   ensures canonQEA(res)
 //@   ensures res == qea_sub(a, b)
+//@   ensures res == qea_subo(a, b)
 
 //@ func (p *Chip) ScalarMulExtensionAlgebra(a QuadraticExtensionVariable, b QuadraticExtensionAlgebraVariable) (res QuadraticExtensionAlgebraVariable)
 //@   props C05 C08
 //@   circuit
 //@   requires chipok(p) && canonQE(a) && canonQEA(b)
+//@   reveal qe_mulo0 qe_mulo1
 //@   ensures canonQEA(res)
 //@   ensures res == qea_smul(a, b)
+//@   ensures res == qea_smulo(a, b)
 
 //@ func (p *Chip) MulExtensionAlgebra(a QuadraticExtensionAlgebraVariable, b QuadraticExtensionAlgebraVariable) (res QuadraticExtensionAlgebraVariable)
 //@   props C05 C08
@@ -472,6 +486,8 @@ package goldilocks
 //@   assert (u7(a[1][0])*b[1][0] + 7*u7(a[1][1])*b[1][1]) % P + a[0][0]*b[0][0] + 7*a[0][1]*b[0][1] == a[0][0]*b[0][0] + 7*a[0][1]*b[0][1] + 7*(a[1][0]*b[1][0] + 7*a[1][1]*b[1][1]) - P*(dv(a[1][0]*7)*b[1][0] + 7*dv(a[1][1]*7)*b[1][1] + dv(u7(a[1][0])*b[1][0] + 7*u7(a[1][1])*b[1][1]))
 //@   assert (u7(a[1][0])*b[1][1] + u7(a[1][1])*b[1][0]) % P + a[0][0]*b[0][1] + a[0][1]*b[0][0] == a[0][0]*b[0][1] + a[0][1]*b[0][0] + 7*(a[1][0]*b[1][1] + a[1][1]*b[1][0]) - P*(dv(a[1][0]*7)*b[1][1] + dv(a[1][1]*7)*b[1][0] + dv(u7(a[1][0])*b[1][1] + u7(a[1][1])*b[1][0]))
 //@   ensures res == qea_mul(a, b)
+//@   reveal qea_mulo00 qea_mulo01 qea_mulo10 qea_mulo11
+//@   ensures res == qea_mulo(a, b)
 
 // Partial barycentric interpolation in the algebra (plonky2 partial_interpolate_ext_algebra):
 // fold over the points:  eval' = eval*(point - x_i) + (w_i * val_i) * prod ;  prod' = prod*(point - x_i).
